@@ -681,6 +681,14 @@ func ReadRequest(b *bfe_bufio.Reader, maxUriBytes int) (req *Request, err error)
 	req.Header = Header(mimeHeader)
 	req.HeaderKeys = headerKeys
 
+	for _, values := range mimeHeader {
+		for _, value := range values {
+			if !validHeaderValue(value) {
+				return nil, &badStringError{"invalid header value", value}
+			}
+		}
+	}
+
 	// RFC2616: Must treat
 	//	GET /index.html HTTP/1.1
 	//	Host: www.google.com
